@@ -449,6 +449,57 @@ fn drive(pid: &str, tier: &str, seed: u64) {
     }
   }
 
+  // 2b. CALL HISTORIES on one object, no full sweep in between: eval(x); puncture(y); eval(x);
+  //     puncture(x); eval(x) - the value of x must not change while x is unpunctured, and x must stay
+  //     refused afterwards, whatever was evaluated last before each puncture
+  if pid == "C10" {
+    let ctx = match new_ctx(pid) {
+      Some(c) => c,
+      None => return,
+    };
+    let ntr = if q { 400 } else { 20000 };
+    let mut g1 = ctx.fresh.clone();
+    let mut punctured: Vec<u8> = Vec::new();
+    for i in 0..ntr {
+      if punctured.len() > 200 || i % 50 == 0 {
+        g1 = ctx.fresh.clone();
+        punctured.clear();
+      }
+      let x = r.g.next() as u8;
+      let y = match r.g.below(4) {
+        0 => x ^ (1u8 << r.g.below(8)),
+        1 => x.wrapping_sub(1),
+        _ => r.g.next() as u8,
+      };
+      let ev = |gg: &GGM, x: u8| -> Result<Vec<u8>, String> {
+        let mut out = [0u8; 32];
+        gg.eval(&[x], &mut out).map(|_| out.to_vec()).map_err(|e| err_kind(&e).to_string())
+      };
+      let want = |p: &Vec<u8>, x: u8| -> Result<Vec<u8>, String> { if p.contains(&x) { Err("NoPrefixFound".into()) } else { Ok(ctx.vals[x as usize].clone()) } };
+      let mut trace = format!("punctured_before={} eval({})", hex(&punctured), x);
+      let mut step = |what: &str, got: Result<Vec<u8>, String>, wanted: Result<Vec<u8>, String>, trace: &str| {
+        if got != wanted {
+          fail("call_history_changes_answer", &[("history", trace.to_string()), ("step", what.to_string()), ("got", format!("{:?}", got.as_ref().map(|v| hex(v)))), ("want", format!("{:?}", wanted.as_ref().map(|v| hex(v))))]);
+        }
+      };
+      step("first eval(x)", ev(&g1, x), want(&punctured, x), &trace);
+      if g1.puncture(&[y]).is_ok() && !punctured.contains(&y) {
+        punctured.push(y);
+      }
+      trace.push_str(&format!(" puncture({}) eval({})", y, x));
+      step("eval(x) after puncture(y)", ev(&g1, x), want(&punctured, x), &trace);
+      if r.g.chance(1, 2) {
+        if g1.puncture(&[x]).is_ok() && !punctured.contains(&x) {
+          punctured.push(x);
+        }
+        trace.push_str(&format!(" puncture({}) eval({})", x, x));
+        step("eval(x) after puncture(x)", ev(&g1, x), want(&punctured, x), &trace);
+      }
+      case(true);
+      stat("states.call_triples");
+    }
+  }
+
   // 3. long sequences up to complete puncturing
   let nseq = if q { 6 } else { 48 };
   for i in 0..nseq {
